@@ -69,6 +69,7 @@ type Ctx struct {
 	NShards int
 	Replay  string // path of a replay file, or ""
 	Scratch string // per-process scratch dir (removed on exit)
+	Shared  string // directory shared by all shards of this run (level exchange of distributed searches)
 
 	start    time.Time
 	deadline time.Time
@@ -294,7 +295,7 @@ func child(spec Spec, body func(c *Ctx)) {
 	}
 	c := &Ctx{
 		Spec: spec, Tier: tr, Seed: envInt("VERIF_SEED", 1), Shard: shard, NShards: n,
-		Replay: os.Getenv("VERIF_REPLAY"), Scratch: scratch,
+		Replay: os.Getenv("VERIF_REPLAY"), Scratch: scratch, Shared: os.Getenv("VERIF_SHARED"),
 		start: time.Now(), deadline: time.Now().Add(budget),
 		counters: map[string]*atomic.Int64{}, sets: map[string]*hashSet{}, vioKeys: map[string]int{},
 	}
@@ -313,6 +314,9 @@ func child(spec Spec, body func(c *Ctx)) {
 // synctest bubble could never be left in an orderly way.
 func (c *Ctx) FlushAndExit() {
 	c.NotExhaustive("shard stopped early after an unrecoverable deadlock in the code under test")
+	if c.Shared != "" {
+		os.WriteFile(filepath.Join(c.Shared, "abort"), []byte("shard left early"), 0o644)
+	}
 	os.RemoveAll(c.Scratch)
 	c.flush()
 	os.Exit(0)
@@ -408,19 +412,25 @@ func parent(spec Spec) {
 		err    error
 	}
 	runs := make([]*childRun, n)
+	shared := filepath.Join(tmp, "shared")
+	os.MkdirAll(shared, 0o755)
 	var wg sync.WaitGroup
 	for i := 0; i < n; i++ {
 		cr := &childRun{out: filepath.Join(tmp, fmt.Sprintf("shard%d.json", i))}
 		runs[i] = cr
 		cmd := exec.Command(os.Args[0], "-test.run", "^TestCheck$", "-test.timeout", "0", "-test.v=false")
 		cmd.Env = append(os.Environ(), fmt.Sprintf("VERIF_SHARD=%d/%d", i, n), "VERIF_OUT="+cr.out, "VERIF_TIER="+tr,
-			"GOTRACEBACK=all")
+			"GOTRACEBACK=all", "VERIF_SHARED="+shared)
 		cmd.Stdout = os.Stderr
 		cmd.Stderr = &cr.stderr
 		wg.Add(1)
 		go func() {
 			defer wg.Done()
 			cr.err = cmd.Run()
+			if cr.err != nil {
+				// a shard died: release the others from any level barrier they may be waiting at
+				os.WriteFile(filepath.Join(shared, "abort"), []byte("shard died"), 0o644)
+			}
 		}()
 	}
 	wg.Wait()
@@ -738,3 +748,82 @@ func ReadJSON(path string, v any) error {
 	}
 	return json.Unmarshal(b, v)
 }
+
+// ---- distributed level-synchronous search support ------------------------------------------------------
+
+// Item is one element exchanged between shards at a level barrier (typically a newly found state: Key is the hash of
+// its canonical form, Data how to reach it).
+type Item struct {
+	Key  uint64 `json:"k"`
+	Data []byte `json:"d"`
+}
+
+type exchangeFile struct {
+	Stop  bool   `json:"stop"`
+	Items []Item `json:"items"`
+}
+
+// Exchange is a barrier: every shard contributes its items under the same tag; all shards get back the union, sorted by
+// (Key, Data), identical in every shard. stop is true if any shard asked to stop (deadline). ok is false when another
+// shard died (the caller should return; the parent reports the failure).
+func (c *Ctx) Exchange(tag string, items []Item, wantStop bool) (all []Item, stop bool, ok bool) {
+	if c.NShards <= 1 || c.Shared == "" {
+		sort.Slice(items, func(i, j int) bool {
+			if items[i].Key != items[j].Key {
+				return items[i].Key < items[j].Key
+			}
+			return bytes.Compare(items[i].Data, items[j].Data) < 0
+		})
+		return items, wantStop, true
+	}
+	b, err := json.Marshal(exchangeFile{Stop: wantStop, Items: items})
+	if err != nil {
+		c.Broken("exchange: %v", err)
+		return nil, true, false
+	}
+	name := func(i int) string { return filepath.Join(c.Shared, fmt.Sprintf("%s.%d", tag, i)) }
+	tmp := name(c.Shard) + ".tmp"
+	if err := os.WriteFile(tmp, b, 0o644); err != nil {
+		c.Broken("exchange: %v", err)
+		return nil, true, false
+	}
+	os.Rename(tmp, name(c.Shard))
+	waitStart := time.Now()
+	for i := 0; i < c.NShards; i++ {
+		for {
+			if _, err := os.Stat(name(i)); err == nil {
+				break
+			}
+			if _, err := os.Stat(filepath.Join(c.Shared, "abort")); err == nil {
+				return nil, true, false
+			}
+			if time.Since(waitStart) > 45*time.Minute {
+				c.Broken("exchange %s: shard %d never arrived", tag, i)
+				return nil, true, false
+			}
+			time.Sleep(3 * time.Millisecond)
+		}
+		fb, err := os.ReadFile(name(i))
+		if err != nil {
+			c.Broken("exchange: %v", err)
+			return nil, true, false
+		}
+		var ef exchangeFile
+		if err := json.Unmarshal(fb, &ef); err != nil {
+			c.Broken("exchange: %v", err)
+			return nil, true, false
+		}
+		stop = stop || ef.Stop
+		all = append(all, ef.Items...)
+	}
+	sort.Slice(all, func(i, j int) bool {
+		if all[i].Key != all[j].Key {
+			return all[i].Key < all[j].Key
+		}
+		return bytes.Compare(all[i].Data, all[j].Data) < 0
+	})
+	return all, stop, true
+}
+
+// Owns deals a key to a shard.
+func (c *Ctx) Owns(key uint64) bool { return c.NShards <= 1 || int(key%uint64(c.NShards)) == c.Shard }
